@@ -151,6 +151,11 @@ MUTATIONS = ["swap-operands", "star-wrap", "drop-arg", "dup-arg", "const-change"
              "unpack-assign", "del-target", "global-stmt", "async-for", "with-item", "match-stmt", "raise-from",
              "const-to-list", "const-to-dict", "const-to-set", "const-to-big", "const-to-tuple", "expensive-arith"]
 
+# templates for the format operators: odd but syntactically harmless spellings (non-ASCII digits as field names, widths
+# with more digits than int() accepts, non-ASCII bytes in mapping keys, nested braces)
+PERCENT_TEMPLATES = ["%s and %5.2f %(k)s", "%" + "9" * 5000 + "d", b"%(\xff)s and %(k)s", "%(\u00b2)s", "%." + "7" * 4400 + "f", b"%\xffd", "%*.*f %c"]
+FORMAT_TEMPLATES = ["{} {0} {a.b} {!z}", "{\u00b2}", "{0[\u00b2]} {\u0663}", "{:{}} {:{{}", "{0.\u00b2}", "{" + "9" * 5000 + "}"]
+
 # literal integer arithmetic whose result has more than a million bits (never placed in code that runs at import)
 EXPENSIVE = ["(-3) ** (10 ** 9)", "2 ** (10 ** 30)", "(-2) ** (2 ** 40)", "1 << (10 ** 12)", "(-1) << (10 ** 12)",
              "(10 ** 30) ** (10 ** 30)", "-(7 ** (10 ** 8))", "(-(10 ** 20)) ** (10 ** 6)", "(3 ** 40) ** (-(-(10 ** 9)))",
@@ -285,9 +290,11 @@ def apply_one(n, name):
         spec = ast.JoinedStr(values=[ast.FormattedValue(value=ast.Constant(8), conversion=-1, format_spec=None), ast.Constant(".2f")])
         return ast.JoinedStr(values=[ast.Constant("v="), ast.FormattedValue(value=c(n), conversion=114, format_spec=spec)])
     if name == "percent-format":
-        return ast.BinOp(left=ast.Constant("%s and %5.2f %(k)s"), op=ast.Mod(), right=c(n))
+        k = (getattr(n, "lineno", 0) * 7 + getattr(n, "col_offset", 0)) % len(PERCENT_TEMPLATES)
+        return ast.BinOp(left=ast.Constant(PERCENT_TEMPLATES[k]), op=ast.Mod(), right=c(n))
     if name == "dot-format":
-        return ast.Call(func=ast.Attribute(value=ast.Constant("{} {0} {a.b} {!z}"), attr="format", ctx=ast.Load()), args=[c(n)], keywords=[])
+        k = (getattr(n, "lineno", 0) * 7 + getattr(n, "col_offset", 0)) % len(FORMAT_TEMPLATES)
+        return ast.Call(func=ast.Attribute(value=ast.Constant(FORMAT_TEMPLATES[k]), attr="format", ctx=ast.Load()), args=[c(n)], keywords=[])
     if name == "slice":
         return ast.Subscript(value=c(n), slice=ast.Slice(lower=ast.Constant(1), upper=None, step=ast.Constant("x")), ctx=ast.Load())
     if name == "dict-spread":
